@@ -217,6 +217,20 @@ func c18Round(c *run.Ctx, idx uint64) {
 		}
 		sh.inputs = append(sh.inputs, append([]byte(nil), f.Data...))
 	}
+	{
+		// Two hot inputs of the same length and with the same first bytes but
+		// different content: a cache or scratch state keyed by anything less
+		// than the content (length, prefix, pointer of a reused buffer) shows
+		// up as a result that differs from the serial one.
+		b := append([]byte(nil), sh.inputs[0]...)
+		for i := len(b) - 2; i > 8; i-- {
+			if b[i]&1 == 0 && b[i] >= 0x40 && b[i] < 0xc0 { // a 1-byte coordinate: stays one
+				b[i] ^= 0x04
+				break
+			}
+		}
+		sh.inputs = append(sh.inputs, b)
+	}
 	if r.Chance(1, 3) {
 		// a malformed input shared by everybody
 		b := append([]byte(nil), sh.inputs[0]...)
